@@ -86,22 +86,30 @@ Record drv := {
   d_eof : bool;
   d_close_tx : bool;          (* the arbiter still holds this connection's close sender *)
   d_close : option close_reason;  (* value waiting in the close channel *)
-  d_pend : bool               (* some PendingTx is non-empty *)
+  d_pend : bool;              (* some PendingTx is non-empty *)
+  d_ctrl : bool               (* ctrl_msgs is non-empty *)
 }.
 
 Definition drv_init (p : pfsm) (r : role) (now : N) : drv :=
   {| d_p := p; d_role := r; d_now := now; d_hold := TNever; d_ka := TNever; d_live := true;
-     d_rxq := []; d_eof := false; d_close_tx := true; d_close := None; d_pend := false |}.
+     d_rxq := []; d_eof := false; d_close_tx := true; d_close := None; d_pend := false;
+     d_ctrl := false |}.
 
 Definition set_fsm (d : drv) (p : pfsm) (h k : tslot) (live : bool) : drv :=
   {| d_p := p; d_role := d_role d; d_now := d_now d; d_hold := h; d_ka := k; d_live := live;
      d_rxq := d_rxq d; d_eof := d_eof d; d_close_tx := d_close_tx d; d_close := d_close d;
-     d_pend := d_pend d |}.
+     d_pend := d_pend d; d_ctrl := d_ctrl d |}.
 
 Definition set_env (d : drv) (now : N) (rxq : list item) (eof tx : bool) (cl : option close_reason)
            (pend : bool) : drv :=
   {| d_p := d_p d; d_role := d_role d; d_now := now; d_hold := d_hold d; d_ka := d_ka d;
-     d_live := d_live d; d_rxq := rxq; d_eof := eof; d_close_tx := tx; d_close := cl; d_pend := pend |}.
+     d_live := d_live d; d_rxq := rxq; d_eof := eof; d_close_tx := tx; d_close := cl; d_pend := pend;
+     d_ctrl := d_ctrl d |}.
+
+Definition set_ctrl (d : drv) (b : bool) : drv :=
+  {| d_p := d_p d; d_role := d_role d; d_now := d_now d; d_hold := d_hold d; d_ka := d_ka d;
+     d_live := d_live d; d_rxq := d_rxq d; d_eof := d_eof d; d_close_tx := d_close_tx d;
+     d_close := d_close d; d_pend := d_pend d; d_ctrl := b |}.
 
 (* ConnArbiter::process: a SendMessage addressed to the other role is
    delivered through that connection's close channel, not returned. *)
@@ -188,13 +196,18 @@ Definition queues_eor (lcap : list cap) (o : pfo) : bool :=
   | _ => false
   end.
 
+(* apply_outputs pushes every SendMessage it is given to ctrl_msgs *)
+Definition is_send (o : pfo) : bool :=
+  match o with PConn _ (Send _) => true | _ => false end.
+
 (* one input through the arbiter and apply_outputs *)
 Definition feed (c : cfg) (d : drv) (a : act) (i : input) : drv * lbl :=
   let '(p', outs) := arb_process (d_p d) (d_role d) i in
   let '(h', k', res) := apply_outputs (c_arm c) (d_now d) (d_hold d) (d_ka d) outs in
   let d1 := set_fsm d p' h' k' (d_live d && is_cont res) in
-  (set_env d1 (d_now d) (d_rxq d) (d_eof d) (d_close_tx d) (d_close d)
-           (d_pend d || existsb (queues_eor (p_local_cap (d_p d))) outs),
+  (set_ctrl (set_env d1 (d_now d) (d_rxq d) (d_eof d) (d_close_tx d) (d_close d)
+                     (d_pend d || existsb (queues_eor (p_local_cap (d_p d))) outs))
+            (d_ctrl d || existsb is_send outs),
    {| l_time := d_now d; l_act := a; l_in := Some i; l_outs := outs; l_res := res |}).
 
 Definition quiet (d : drv) (a : act) (res : sres) : drv * lbl :=
@@ -209,7 +222,7 @@ Definition is_setka (o : pfo) : bool :=
 Definition start (c : cfg) (d : drv) (restarting : bool) : drv * lbl :=
   let '(p', outs) := arb_process (d_p d) (d_role d) (Connected restarting) in
   let '(h', k', res) := apply_outputs (c_arm c) (d_now d) (d_hold d) (d_ka d) outs in
-  (set_fsm d p' h' k' (d_live d),
+  (set_ctrl (set_fsm d p' h' k' (d_live d)) (d_ctrl d || existsb is_send outs),
    {| l_time := d_now d; l_act := AStart; l_in := Some (Connected restarting); l_outs := outs; l_res := res |}).
 
 (* the `loop { try_parse ... rx_msg }` of the readable branch *)
@@ -228,7 +241,7 @@ Fixpoint rx_loop (c : cfg) (d : drv) (its : list item) : drv * list lbl :=
   end.
 
 (* flush_tx when some PendingTx was non-empty: only the SetKeepaliveTimer
-   outputs of UpdateSent are applied *)
+   outputs of UpdateSent are applied (the caller has emptied ctrl_msgs) *)
 Definition flush (c : cfg) (d : drv) : drv * lbl :=
   let '(p', outs) := arb_process (d_p d) (d_role d) UpdateSent in
   let '(h', k', _) := apply_outputs (c_arm c) (d_now d) (d_hold d) (d_ka d) (filter is_setka outs) in
@@ -258,8 +271,17 @@ Definition select (c : cfg) (d : drv) : drv * list lbl :=
           | [] => if d_eof d then one (feed c d AEof Disconnected) else (d, [])
           | its => rx_loop c (take_rxq d) its
           end in
-        if d_live d1 && d_pend d1 then
-          let '(d2, l) := flush c d1 in (d2, ls ++ [l])
+        (* `interest` is computed before the select: WRITABLE only if a
+           control message or an update was waiting then; flush_tx itself
+           looks at the PendingTx again *)
+        if d_live d1 && (d_ctrl d || d_pend d) then
+          if d_pend d1 then
+            let '(d2, l) := flush c (set_ctrl d1 false) in (d2, ls ++ [l])
+          else
+            match ls with
+            | [] => one (quiet (set_ctrl d1 false) AIdle Cont)
+            | _ => (set_ctrl d1 false, ls)
+            end
         else
           match ls with
           | [] => one (quiet d1 AIdle Cont)
